@@ -35,7 +35,7 @@ type Case struct {
 
 func genCase(t *rapid.T) Case {
 	fn := rapid.Custom(func(t *rapid.T) Fn {
-		f := Fn{Out: rapid.SampledFrom([]string{"nil", "nil", "err", "err", "canceled", "block"}).Draw(t, "out")}
+		f := Fn{Out: rapid.SampledFrom([]string{"nil", "nil", "nil", "err", "err", "err", "canceled", "canceled", "wrapcanceled", "block", "block"}).Draw(t, "out")}
 		f.Nil = rapid.IntRange(0, 7).Draw(t, "isnil") == 0
 		if f.Out == "block" {
 			f.Then = rapid.SampledFrom([]string{"ctx", "nil", "err"}).Draw(t, "then")
@@ -98,6 +98,9 @@ func body(c *sched.Ctl, cs Case, v *ev.Verdict) {
 		st := &fnState{spec: spec}
 		sts[i] = st
 		errs[i] = errOf(i)
+		if spec.Out == "wrapcanceled" {
+			errs[i] = fmt.Errorf("fn-error-%d: %w", i, context.Canceled)
+		}
 		if spec.Nil {
 			continue
 		}
@@ -120,6 +123,9 @@ func body(c *sched.Ctl, cs Case, v *ev.Verdict) {
 				return errs[i]
 			case "canceled":
 				return context.Canceled
+			case "wrapcanceled":
+				// an error that merely wraps context.Canceled is an error "other than context.Canceled"
+				return errs[i]
 			default:
 				<-ctx.Done()
 				c.Park("h.fn.unblocked")
@@ -273,9 +279,31 @@ func body(c *sched.Ctl, cs Case, v *ev.Verdict) {
 		}
 	}
 	hm.Unlock()
+	if !hadViol && len(v.Viol) == 0 {
+		// the same argument slice is used for a second call (context already cancelled, so
+		// blocking functions return at once): again every non-nil entry runs exactly once
+		for i := range fns {
+			if (fns[i] == nil) != cs.Fns[i].Nil {
+				fail("ccall:arguments-modified", "after the call entry %d of the caller's argument slice is nil=%v, it was nil=%v before", i, fns[i] == nil, cs.Fns[i].Nil)
+			}
+		}
+		_ = ccall.CallConcurrently(ctx, fns...)
+		c.Wait()
+		hm.Lock()
+		for i, st := range sts {
+			want := 2
+			if cs.Fns[i].Nil {
+				want = 0
+			}
+			if st.entered != want && len(v.Viol) == 0 {
+				fail("ccall:invocation-count", "after a second call with the same argument slice function %d has been entered %d times in total, want %d", i, st.entered, want)
+			}
+		}
+		hm.Unlock()
+	}
 	nErr := 0
 	for _, f := range cs.Fns {
-		if !f.Nil && (f.Out == "err" || f.Out == "canceled") {
+		if !f.Nil && (f.Out == "err" || f.Out == "canceled" || f.Out == "wrapcanceled") {
 			nErr++
 		}
 	}
